@@ -41,6 +41,19 @@ Next == (\E n \in Nodes, b \in Batches : Deliver(n, b)) \/ (\E a, b \in Nodes : 
 Spec == Init /\ [][Next]_vars
 
 ViewIsJoin == \A n \in Nodes : view[n] = Join(delivered[n])
+\* the relational characterisation of the join used in the unbounded TLAPS proof (spec/proofs/ShardViewU.tla), with
+\* this module's universe (membership of config-change index c is c, leader of term t is LeaderOf(t)): it must agree
+\* with the CHOOSE-based Join above in every reachable state
+IsJoinMC(v, S) ==
+  /\ v.cc = 0 \/ \E u \in S : u.cc = v.cc
+  /\ \A u \in S : u.cc <= v.cc
+  /\ v.reps = v.cc
+  /\ (v.leader = NoLeader) <=> (\A u \in S : u.leader = NoLeader)
+  /\ v.leader = NoLeader => v.term = 0
+  /\ v.leader # NoLeader => /\ v.term > 0 /\ v.leader = LeaderOf(v.term)
+                            /\ \E u \in S : u.leader # NoLeader /\ u.term = v.term
+                            /\ \A u \in S : u.leader # NoLeader => u.term <= v.term
+JoinAgrees == \A n \in Nodes : IsJoinMC(view[n], delivered[n]) /\ IsJoinMC(Join(delivered[n]), delivered[n])
 TermMonotone == [][\A n \in Nodes : view'[n].term >= view[n].term /\ view'[n].cc >= view[n].cc]_vars
 \* an update with no leader or an older term never replaces a newer leader
 LeaderKept == [][\A n \in Nodes : view[n].leader # NoLeader => view'[n].leader # NoLeader
